@@ -2,7 +2,9 @@ ENTRY = dict(
     runner="C31", pkg="./cmd/c31", corr=["Corr.C31Corr"], n=dict(quick=200, thorough=3000),
     rule="(a) for each of the 11 public/private struct pairs of u_public.go: the declared field lists (reflect), the copy "
          "flows observed by setting one field at a time, 12+n/20 random fills of every field in both directions compared "
-         "field by field, nil in/nil out; the three rebuilt slices with nil / empty / 1-4 elements; (b) ClientHello bytes: every "
+         "field by field (every second suite view carries an implemented suite id with otherwise random fields), nil in/nil out; "
+         "re-conversion after a same-shape edit of every leaf of every field (convert, edit, convert again; Raw cleared in between), "
+         "Marshal -> same-shape edit -> Marshal -> parse on valid views; the three rebuilt slices with nil / empty / 1-4 elements; (b) ClientHello bytes: every "
          "parrot's Hello.Raw from BuildHandshakeState on a connection-less UConn, randomized specs with harness seeds, generated "
          "valid field values, and 27 kinds of wire-level variants (valid: dropped/swapped/unknown extensions, SCSV, no extension "
          "block, SNI edits, status_request forms, empty key_share/psk_modes, session-id lengths, garbage header, added cookie/"
